@@ -399,28 +399,27 @@ def o_to_pgl(A, bilinear_form=np.diag([-1, 1, 1])):
     # A_d is +/- sl2_irrep([[a, b], [c, d]], 3), whose rows are
     # (d^2, cd, c^2), (2bd, ad + bc, 2ac), (b^2, ab, a^2);
     # O(2,1) -> PGL(2) kills -1, and the corners of sl2_irrep are squares
-    if A_d[0, 0] + A_d[0, 2] + A_d[2, 0] + A_d[2, 2] < 0:
-        A_d = -A_d
+    flip = (A_d[..., 0, 0] + A_d[..., 0, 2]
+            + A_d[..., 2, 0] + A_d[..., 2, 2]) < 0
+    A_d = np.where(flip[..., np.newaxis, np.newaxis], -A_d, A_d)
 
-    a = np.sqrt(np.abs(A_d[2, 2]))
-    b = np.sqrt(np.abs(A_d[2, 0]))
-    c = np.sqrt(np.abs(A_d[0, 2]))
-    d = np.sqrt(np.abs(A_d[0, 0]))
+    a = np.sqrt(np.abs(A_d[..., 2, 2]))
+    b = np.sqrt(np.abs(A_d[..., 2, 0]))
+    c = np.sqrt(np.abs(A_d[..., 0, 2]))
+    d = np.sqrt(np.abs(A_d[..., 0, 0]))
 
-    # TODO: make this vector-safe, right now the docstring is a lie
     # the last row determines (a, b) up to sign, the first row (c, d)
     # up to sign, and the middle row fixes the relative sign
-    if A_d[2][1] < 0:
-        b = b * -1
-    if A_d[0][1] < 0:
-        d = d * -1
-    if (2 * b * d * A_d[1][0] + (a * d + b * c) * A_d[1][1]
-        + 2 * a * c * A_d[1][2]) < 0:
-        c = c * -1
-        d = d * -1
+    b = np.where(A_d[..., 2, 1] < 0, -b, b)
+    d = np.where(A_d[..., 0, 1] < 0, -d, d)
 
-    return np.array([[a, b],
-                     [c, d]])
+    flip = (2 * b * d * A_d[..., 1, 0] + (a * d + b * c) * A_d[..., 1, 1]
+            + 2 * a * c * A_d[..., 1, 2]) < 0
+    c = np.where(flip, -c, c)
+    d = np.where(flip, -d, d)
+
+    return np.stack([np.stack([a, b], axis=-1),
+                     np.stack([c, d], axis=-1)], axis=-2)
 
 def sl2_to_so21(A):
     r"""Return the image of an element of $\mathrm{SL}(2, \mathbb{R})$
